@@ -343,6 +343,17 @@ struct FnResultUP : FnU {
     return std::move(inner);
   }
 };
+struct FnHead : Fn {  // head of a lazy chain: no argument, returns a value
+  using Fn::Fn;
+  Val operator()() && {
+    gFn.Use(this, "call");
+    Mark("call " + std::to_string(id));
+    if (kind == Kind::Throws) {
+      throw 7;
+    }
+    return Val{1};
+  }
+};
 struct FnFinal : Fn {  // for Detach*: returns void
   using Fn::Fn;
   void operator()(R&& r) && {
@@ -748,6 +759,114 @@ void RunUnwrap(const ParamsC& p) {
   }
 }
 
+// ---- family D: lazy Tasks (nothing runs until started): a ready head (MakeTask), a Schedule head on an accepting or a
+// rejecting executor, optionally one step, and every way to start or abandon the chain.  Sequential (one fiber): the
+// subject is that every stored value, functor and core is released exactly once on each path.
+struct ParamsD {
+  int head;  // 0 MakeTask(value), 1 Schedule(accepting executor, f), 2 Schedule(rejecting executor, f), 3 Schedule(f throws)
+  int step;  // 0 none, 1 ThenInline(value f), 2 Then(rejecting executor, value f), 3 ThenInline(Result f), 4 ThenInline(f throws)
+  int end;   // 0 Get, 1 destroyed unstarted, 2 Cancel, 3 ToFuture(rejecting executor).Get, 4 Detach, 5 Detach(rejecting executor)
+};
+
+template <typename T>
+void EndTask(const ParamsD& p, T t, CountingInline& stopped) {
+  Count cnt;
+  switch (p.end) {
+    case 0: {
+      R r = std::move(t).Get();
+      (void)r;
+      break;
+    }
+    case 1: {
+      auto t2 = std::move(t);
+      break;
+    }
+    case 2:
+      std::move(t).Cancel();
+      break;
+    case 3: {
+      R r = std::move(t).ToFuture(stopped).Get();
+      (void)r;
+      break;
+    }
+    case 4:
+      std::move(t).Detach();
+      break;
+    default:
+      std::move(t).Detach(stopped);
+      break;
+  }
+}
+
+template <typename T>
+void StepTask(const ParamsD& p, T t, CountingInline& stopped) {
+  switch (p.step) {
+    case 0:
+      EndTask(p, std::move(t), stopped);
+      break;
+    case 1:
+      EndTask(p, [&] { Count cnt; return std::move(t).ThenInline(FnValue{2, Kind::TakesValue}); }(), stopped);
+      break;
+    case 2:
+      EndTask(p, [&] { Count cnt; return std::move(t).Then(stopped, FnValue{2, Kind::TakesValue}); }(), stopped);
+      break;
+    case 3:
+      EndTask(p, [&] { Count cnt; return std::move(t).ThenInline(FnResult{2, Kind::TakesResult}); }(), stopped);
+      break;
+    default:
+      EndTask(p, [&] { Count cnt; return std::move(t).ThenInline(FnValue{2, Kind::Throws}); }(), stopped);
+      break;
+  }
+}
+
+void RunTask(const ParamsD& p) {
+  gFn.Reset();
+  gVal.Reset();
+  vrt::g.trace_unknown = false;
+  CountingInline alive{true};
+  CountingInline stopped{false};
+  std::memset(gTable, 0, sizeof(gTable));
+  gLiveBlocks = 0;
+  gInExecution = true;
+  {
+    switch (p.head) {
+      case 0:
+        StepTask(p, [] { Count cnt; return yaclib::MakeTask<Val, Err>(Val{1}); }(), stopped);
+        break;
+      case 1:
+        StepTask(p, [&] { Count cnt; return yaclib::Schedule<Err>(alive, FnHead{1, Kind::TakesValue}); }(), stopped);
+        break;
+      case 2:
+        StepTask(p, [&] { Count cnt; return yaclib::Schedule<Err>(stopped, FnHead{1, Kind::TakesValue}); }(), stopped);
+        break;
+      default:
+        StepTask(p, [&] { Count cnt; return yaclib::Schedule<Err>(alive, FnHead{1, Kind::Throws}); }(), stopped);
+        break;
+    }
+  }
+  gInExecution = false;
+  for (auto& e : gFn.errors) {
+    vrt::Fail("functor: " + e);
+  }
+  for (auto& e : gVal.errors) {
+    vrt::Fail("value: " + e);
+  }
+  for (void* q : gQuarantine) {
+    std::free(q);
+  }
+  gQuarantine.clear();
+  gFreed.clear();
+  if (!gFn.live.empty()) {
+    vrt::Fail(std::to_string(gFn.live.size()) + " functor instance(s) never destroyed");
+  }
+  if (!gVal.live.empty()) {
+    vrt::Fail(std::to_string(gVal.live.size()) + " value instance(s) never destroyed");
+  }
+  if (gLiveBlocks != 0) {
+    vrt::Fail("allocation balance at quiescence is " + std::to_string(gLiveBlocks) + " blocks");
+  }
+}
+
 }  // namespace
 
 void* operator new(std::size_t n) {
@@ -859,6 +978,16 @@ int main(int argc, char** argv) {
             }
           }
         }
+      }
+    }
+  }
+  for (int head = 0; head < 4; ++head) {
+    for (int step = 0; step < 5; ++step) {
+      for (int end = 0; end < 6; ++end) {
+        ParamsD p{head, step, end};
+        m.Scenario("task/h" + std::to_string(head) + "s" + std::to_string(step) + "e" + std::to_string(end), [p] {
+          RunTask(p);
+        });
       }
     }
   }
